@@ -400,8 +400,11 @@ def runner_jobs(rng, n):
 
 
 # ------------------------------------------------------------------------------------------------ repair and retry
-REPAIR_FAULTS = ["orphan", "unconnected", "width", "array_width", "bad_slice"]   # caught by Orphanage / ConnTypes / ConnTypes / ArrayFlattener / ConnTypes (width of the slice)
-REPAIRS = ["simple", "refs", "bundle"]   # what the healthy replacement needs of the passes that had already completed on the parent
+# caught by Orphanage / ConnTypes / ConnTypes / ArrayFlattener / ConnTypes (width of the slice) / MarkModules (the very last pass: every other pass has completed on the parent)
+REPAIR_FAULTS = ["orphan", "unconnected", "width", "array_width", "bad_slice", "anonymous"]
+# what the replacement needs of the passes that had already completed on the parent: nothing, reference resolution, bundle flattening;
+# array flattening (the designer also adds an instance array to the parent); checking (the replacement is wired with a port left open: must be refused)
+REPAIRS = ["simple", "refs", "bundle", "plus_array", "open_port"]
 
 
 def family():
@@ -427,7 +430,11 @@ def family():
         bp = Bn(port=True)
         l1 = Leaf(a=p, b=bp.x)
         l2 = Leaf(a=p, b=bp.y)
-    return Leaf, Bn, dict(simple=GoodSimple, refs=GoodRefs, bundle=GoodBundle)
+    @h.module
+    class GoodTwoPorts:
+        p, q = h.Ports(2)
+        l1 = Leaf(a=p, b=q)
+    return Leaf, Bn, dict(simple=GoodSimple, refs=GoodRefs, bundle=GoodBundle, two_ports=GoodTwoPorts)
 
 def bad(kind, Leaf):
     Bad = h.Module(name="Bad"); Bad.p = h.Port()
@@ -441,6 +448,8 @@ def bad(kind, Leaf):
         Bad.w = h.Signal(width=3); Bad.arr = h.InstanceArray(Leaf, 2)(a=Bad.p, b=Bad.w)
     elif kind == "bad_slice":
         Bad.w = h.Signal(width=3); Bad.l = Leaf(a=Bad.p, b=Bad.w[5])
+    elif kind == "anonymous":
+        Bad.q = h.Signal(); Bad.l = Leaf(a=Bad.p, b=Bad.q); Bad.name = None
     return Bad
 
 def top(Leaf, Bn, child, name="Top"):
@@ -452,29 +461,51 @@ def top(Leaf, Bn, child, name="Top"):
     Top.c = child(**kw)
     return Top
 
-def repair_case(fr):
-    fault, repair = fr
-    Leaf, Bn, goods = family()
-    ref = h.to_proto(top(Leaf, Bn, goods[repair])).SerializeToString(deterministic=True)
-    Leaf, Bn, goods = family()
-    T = top(Leaf, Bn, bad(fault, Leaf))
-    try:
-        h.to_proto(T); first = "returned"
-    except Exception as e:
-        first = "raised " + type(e).__name__
-    # repair: the offending child is replaced
-    try:
-        g = goods[repair]
+def _apply_repair(T, Leaf, Bn, goods, repair):
+    """The offending child `T.c` is replaced (and, for some repairs, something else is added)."""
+    if repair == "plus_array":
+        T.c = goods["simple"](p=T.p)
+        T.w2 = h.Signal(width=2)
+        T.arr = 2 * Leaf(a=T.p, b=T.w2)
+    elif repair == "open_port":
+        T.c = goods["two_ports"](p=T.p)          # `q` is left unconnected
+    else:
         kw = dict(p=T.p)
         if repair == "bundle":
             T.bb = Bn(); kw["bp"] = T.bb
-        T.c = g(**kw)
-        got = h.to_proto(T).SerializeToString(deterministic=True)
-        res = "equal" if got == ref else "DIFFERENT PACKAGE"
-    except Exception as e:
-        res = "raised " + type(e).__name__ + ": " + str(e).splitlines()[-1][:90]
-    return {"first": first, "repaired": res}
+        T.c = goods[repair](**kw)
 
+
+def _outcome(f):
+    try:
+        return "pkg " + hashlib.md5(f().SerializeToString(deterministic=True)).hexdigest()
+    except Exception as e:
+        return "raised " + type(e).__name__ + ": " + str(e).splitlines()[-1][:90]
+
+
+def repair_case(fr):
+    fault, repair = fr
+    # what a fresh process makes of the repaired design: the same edits on a parent whose child was healthy all along
+    Leaf, Bn, goods = family()
+    R = top(Leaf, Bn, goods["simple"])
+    _apply_repair(R, Leaf, Bn, goods, repair)
+    ref = _outcome(lambda: h.to_proto(R))
+    Leaf, Bn, goods = family()
+    T = top(Leaf, Bn, bad(fault, Leaf))
+    first = _outcome(lambda: h.to_proto(T))
+    first = "returned" if first.startswith("pkg") else first[:40]
+    try:
+        _apply_repair(T, Leaf, Bn, goods, repair)
+        got = _outcome(lambda: h.to_proto(T))
+    except Exception as e:
+        got = "raised (while editing) " + type(e).__name__ + ": " + str(e).splitlines()[-1][:90]
+    if got.startswith("pkg"):
+        res = "equal" if got == ref else ("DIFFERENT PACKAGE" if ref.startswith("pkg") else "RETURNED A PACKAGE; fresh: " + ref)
+    elif ref.startswith("raised"):
+        res = "equal"                             # refused, as a fresh process refuses it (the wording is not compared)
+    else:
+        res = got
+    return {"first": first, "repaired": res}
 
 
 def run_repairs(ctx):
@@ -494,7 +525,8 @@ def run_repairs(ctx):
             rep.fail("pred", case, {"why": "a design which no longer contains the offending module is refused after the repair (a fresh process builds it)", "result": res},
                      f"repair:{f}/{r}")
         else:
-            rep.fail("pred", case, {"why": "after the repair a package comes back which a fresh process does not return", "result": res})
+            rep.fail("pred", case, {"why": "after the repair a package comes back which a fresh process does not return", "result": res},
+                     f"repair-wrong-package:{f}/{r}")
 
 def run(ctx):
     rep, rng = ctx.rep, ctx.rng
